@@ -27,6 +27,9 @@ BASE = {
     "none":   ([cand("flt", "TS<float>", "TS<float>"), cand("set", "TSS<$S>", "TS<$S>")], "TS<int>"),
     "rep":    ([cand("same", "TS<$S>;TS<$S>", "TS<$S>")], "TS<int>;TS<float>"),
     "sized":  ([cand("lst", "TSL<~T,#N>", "TSL<~T,#N>"), cand("any", "~U", "~U")], "TSL<TS<int>,2>"),
+    "scale":  ([cand("by_int", "TS<int>;int", "TS<int>"), cand("by_flt", "TS<int>;float", "TS<int>")], "TS<int>;int"),
+    "nest":   ([cand("tsd_ref", "TSD<$K,REF<TS<$S>>>", "TS<$S>"), cand("any", "~T", "~T")], "TSD<str,TS<int>>"),
+    "nsig":   ([cand("tsd_sig", "TSD<$K,SIGNAL>", "TSS<$K>")], "TSD<int,TS<float>>"),
 }
 
 
@@ -107,6 +110,30 @@ def c_more_general_wins(it):
         e.update({"kind": "ok", "sel": "any", "bind": [["~T", P("TS<int>")]], "out": P("TS<int>")})
 
 
+def c_exact_ties_with_converted(it):
+    # every order reports the exactly typed and the merely convertible scalar overload at the same rank (self-consistent)
+    for e in [x for x in it["ev"] if x["e"] == "res"]:
+        e.update({"kind": "ambiguous", "sel": "", "bind": [], "out": cr.SIG, "tied": ["by_int", "by_flt"], "rej": [],
+                  "rk": [["by_int", 1], ["by_flt", 1]]})
+
+
+def c_converted_beats_exact(it):
+    for e in [x for x in it["ev"] if x["e"] == "res"]:
+        e.update({"kind": "ok", "sel": "by_flt", "rk": [["by_flt", 1], ["by_int", 2]]})
+
+
+def c_matching_candidate_dropped(it):
+    # TSD[K, REF[TS[S]]] is listed as rejected and the bare variable wins, with ranks that make the bare variable the minimum
+    for e in [x for x in it["ev"] if x["e"] == "res"]:
+        e.update({"kind": "ok", "sel": "any", "bind": [["~T", P("TSD<str,TS<int>>")]], "out": P("TSD<str,TS<int>>"),
+                  "rej": ["tsd_ref"], "rk": [["any", 10000], ["tsd_ref", 20000]]})
+
+
+def c_only_candidate_dropped(it):
+    e = ev_res(it)
+    e.update({"kind": "nomatch", "sel": "", "bind": [], "out": cr.SIG, "rej": ["tsd_sig"]})
+
+
 def c_unexpected_error(it):
     e = ev_res(it)
     e.update({"kind": "other", "sel": "", "bind": [], "out": cr.SIG})
@@ -138,6 +165,14 @@ CORRUPTIONS = [
     ("second registration order picks another winner", "spec", c_order_dependent, "C19.outcome_depends_on_registration_order"),
     ("bare variable out-ranks TS<$S> (ranks self-consistent)", "gen", c_more_general_wins,
      "C19.selected_candidate_is_strictly_more_general_than_another_matching_candidate"),
+    ("exact and converted scalar overloads reported as tied (ranks self-consistent)", "scale", c_exact_ties_with_converted,
+     "C19.ambiguity_between_an_exact_and_a_converted_scalar_match"),
+    ("converted scalar overload wins over the exact one (ranks self-consistent)", "scale", c_converted_beats_exact,
+     "C19.selected_candidate_converts_a_scalar_that_another_matching_candidate_takes_exactly"),
+    ("TSD<$K,REF<TS<$S>>> rejected for TSD<str,TS<int>>, bare variable wins (ranks self-consistent)", "nest", c_matching_candidate_dropped,
+     "C19.candidate_whose_parameters_match_the_arguments_was_rejected"),
+    ("TSD<$K,SIGNAL> rejected for TSD<int,TS<float>>: resolution error", "nsig", c_only_candidate_dropped,
+     "C19.candidate_whose_parameters_match_the_arguments_was_rejected"),
     ("resolution raises another exception", "two", c_unexpected_error, "C19.resolution_raised_an_unexpected_error"),
     ("scenario did not complete (end dropped)", "two", c_drop_end, "trace.incomplete"),
 ]
@@ -174,13 +209,13 @@ def main():
         expect[100 + j] = ("%s  [%s]" % (what, n), clause)
     verdicts, _, _ = tracecheck.validate("ResolutionTrace", "ResolutionTrace.cfg", items, "c19self", shards=1, keep=cr.KEEP)
     ok = True
-    print("%-72s %-84s %s" % ("trace", "verdict of ResolutionTrace.tla", ""))
+    print("%-96s %-84s %s" % ("trace", "verdict of ResolutionTrace.tla", ""))
     for k in sorted(expect):
         what, want = expect[k]
         got = verdicts[k][1]
         good = got == want
         ok = ok and good
-        print("%-72s %-84s %s" % (what, got or "accepted", "ok" if good else "UNEXPECTED (wanted %s)" % (want or "accepted")))
+        print("%-96s %-84s %s" % (what, got or "accepted", "ok" if good else "UNEXPECTED (wanted %s)" % (want or "accepted")))
     print("c19_corrupt: %s" % ("every corruption rejected with the expected clause" if ok else "BINDING NOT DEMONSTRATED"))
     return 0 if ok else 1
 
